@@ -5,7 +5,7 @@
    theories/CallWitness.v.  "For every schedule" = for every list of labels `ls`; connections and
    clients are named by arbitrary naturals (any number of them); the method table `tg`, the result
    function `fr`, the argument-decoding predicate `ok` and the method-error predicate `ce` are
-   arbitrary.  `bounded st`: no client has drawn more than 2^31 message ids. *)
+   arbitrary, and so is the connection's message-type filter `flt`.  `bounded st`: no client has drawn more than 2^31 message ids. *)
 From QV Require Import Call CallProofs CallWitness.
 Local Open Scope N_scope.
 
@@ -23,8 +23,8 @@ Print Assumptions C04_reply_echoes_key.
 
 (* endPoint.dispatch on the client: a frame from the server matches the handler of at most one
    pending call, and it is the answer to that very call *)
-Theorem C04_dispatch_unique : forall k tg fr ok ce ls,
-  let st := exec k tg fr ok ce init ls in bounded st ->
+Theorem C04_dispatch_unique : forall k flt tg fr ok ce ls,
+  let st := exec k flt tg fr ok ce init ls in bounded st ->
   forall c i j g, In g (s2c st c) -> (i < issued st c)%nat -> (j < issued st c)%nat ->
   hit (calls st c i) g = true -> hit (calls st c j) g = true -> i = j /\ f_tag g = TCall c i.
 Proof. exact dispatch_unique_reachable. Qed.
@@ -32,16 +32,16 @@ Print Assumptions C04_dispatch_unique.
 
 (* the only step that changes an execution counter is a mailbox goroutine handling one mail whose
    type runs the method: exactly +1, for that mail's request *)
-Theorem C04_mailbox_once : forall k tg fr ok ce st l t,
-  ex (step k tg fr ok ce st l) t = ex st t \/
+Theorem C04_mailbox_once : forall k flt tg fr ok ce st l t,
+  ex (step k flt tg fr ok ce st l) t = ex st t \/
   exists s o c g r, l = LMbox s o /\ take_mail s o (mails st) = Some (c, g, r) /\ t = f_tag g /\
-                    runs k (f_type g) = true /\ ex (step k tg fr ok ce st l) t = S (ex st t).
+                    runs k (f_type g) = true /\ ex (step k flt tg fr ok ce st l) t = S (ex st t).
 Proof. exact mailbox_once. Qed.
 Print Assumptions C04_mailbox_once.
 
 (* the composition, for the configuration without the two defects of the pinned tree *)
-Theorem C04_holds : forall k tg fr ok ce, clean k -> forall ls,
-  let st := exec k tg fr ok ce init ls in bounded st ->
+Theorem C04_holds : forall k flt tg fr ok ce, clean k -> forall ls,
+  let st := exec k flt tg fr ok ce init ls in bounded st ->
   (forall c i,
      (k_returns (calls st c i) <= 1)%nat /\
      (forall p, k_result (calls st c i) = Some (ROk p) ->
@@ -57,8 +57,8 @@ Print Assumptions C04_holds.
 
 (* exactly one: when nothing of a connection is left in the queues and mailboxes, each call sent
    on it has returned once, or its answer is in its handler's queue and Call returns at its next step *)
-Theorem C04_exactly_one_when_drained : forall k tg fr ok ce, clean k -> forall ls,
-  let st := exec k tg fr ok ce init ls in bounded st ->
+Theorem C04_exactly_one_when_drained : forall k flt tg fr ok ce, clean k -> flt T_Call = true -> forall ls,
+  let st := exec k flt tg fr ok ce init ls in bounded st ->
   forall c i, k_sent (calls st c i) = true ->
     c2s st c = [] -> (forall g, ~ In (c, g) (mails st)) -> s2c st c = [] ->
     k_returns (calls st c i) = 1%nat \/
